@@ -119,7 +119,7 @@ def run_path(src, reg, contract, fnode, fglobs, case_builder, prefix, opts):
             for n, v in ctx.ghost['globals'].items():
                 params['G' + n] = v        # visible to requires / ensures as G<name>
         for label, cond in all_clauses(ip, contract, 'requires', params):
-            ctx.assume(cond)
+            ctx.assume(ip.cval(cond))
         ctx.ghost['requires_done'] = len(ctx.pc)
         if not ctx.feasible():
             return ctx, 'vacuous'
@@ -171,7 +171,7 @@ def run_path(src, reg, contract, fnode, fglobs, case_builder, prefix, opts):
                            {'old': old, 'result': outcome[1] if outcome[0] == 'return' else None,
                             'raised': outcome[1] if outcome[0] == 'raise' else None})
         for label, cond in post:
-            ctx.oblige(f'{key}/post/{label.lstrip("!")}', cond, 'post')
+            ctx.oblige(f'{key}/post/{label.lstrip("!")}', ip.cval(cond), 'post')
         # ---- frame
         if contract.modifies is not None:
             _frame(ip, contract, params, old)
@@ -441,6 +441,26 @@ def verify_function(src, reg, key, opts=None):
                         todo.append([(t[0], t[2], t[1]) for t in ctx.taken[:i]] + [(alt, lab, n)])
                 if status == 'infeasible':
                     res.infeasible += 1
+                    # the obligations this run emitted beyond its prefix still count: a call-site
+                    # precondition that is FALSE on every state of the path makes the path infeasible
+                    # once it is assumed -- the obligation itself was emitted before, with its own
+                    # (satisfiable) path condition
+                    late = [ob for ob in ctx.obls if len(ob.path) >= len(prefix)]
+                    if late:
+                        inc = IncSolver(ctx.axioms, timeout_ms)
+                        pstr = ''.join(str(t[0]) for t in ctx.taken)
+                        for ob in late:
+                            if (only and not re.search(only, ob.name)) or ob.name in failed_names:
+                                continue
+                            r = inc.solve(ob, opts.get('cvc5', True))
+                            if r['status'] == 'discharged':
+                                continue          # (counted on the feasible sibling path, or vacuous)
+                            failed_names.add(ob.name)
+                            r.update({'name': ob.name, 'kind': ob.kind, 'case': label, 'path': pstr,
+                                      'outcome': 'path ends: precondition false'})
+                            if ob.info:
+                                r['info'] = {k: str(v) for k, v in ob.info.items()}
+                            res.obligations.append(r)
                     continue
                 any_feasible = True
                 res.paths += 1
